@@ -375,6 +375,8 @@ def run(ctx, repo):
     if not undefined:
         ctx.ok('R6', 'no undefined names in athlon_score.py / agegrader.py')
     check_text_column(ctx, repo)
+    from .c14 import age_clamps
+    age_clamps(ctx, repo, repo.module(AGE), 'R6')
 
     # ---- R7 hurdles remap
     remap = {}
